@@ -66,6 +66,10 @@ func drawRVProgram(t *rapid.T, maxIns int) *rvProgram { return drawRVProgramMin(
 // (never written by generated code) in about every sixth position.
 var rvFreeJalr = false
 
+// rvFreeBase makes drawRVProgramMin emit loads and stores through x13 (never
+// written by generated code, offsets 0..7) in about every sixth position.
+var rvFreeBase = false
+
 // drawRVProgramMin draws a program of minIns..maxIns instructions.
 func drawRVProgramMin(t *rapid.T, minIns, maxIns int) *rvProgram {
 	n := minIns + uniformInt(t, maxIns-minIns+1, "n")
@@ -97,7 +101,15 @@ func drawRVProgramMin(t *rapid.T, minIns, maxIns int) *rvProgram {
 		if rvFreeJalr && uniformInt(t, 6, "freeJalr") == 0 {
 			tmpl = 20
 		}
+		if rvFreeBase && uniformInt(t, 6, "freeBase") == 0 {
+			tmpl = 21
+		}
 		switch tmpl {
+		case 21:
+			// load/store through x13, which generated code never writes: whoever answers
+			// the emulator's question decides which memory is touched (offsets 0..7)
+			name := pickS(t, "fbop", "sb", "sh", "sw", "sd", "lb", "lw", "ld", "sb")
+			emit(rvIns(name), rvref.Fields{Rd: lowReg("fbrd"), Rs2: srcReg("fbrs2"), Rs1: 13, Imm: int64(uniformInt(t, 8, "fboff"))})
 		case 20:
 			// indirect jump through a register nothing may have written: whoever
 			// answers the emulator's question decides where execution continues
